@@ -1165,8 +1165,33 @@ func (u *Unit) globalValue(g *ssa.Global) Val {
 	if tab, ok := u.eng.tables[g]; ok && !u.tableDone[g] {
 		u.tableDone[g] = true
 		at := et.Underlying().(*types.Array)
+		// run-length form of the initialiser: maximal index intervals of equal value
+		type run struct {
+			lo, hi int
+			v      int64
+		}
+		var runs []run
 		for i, v := range tab {
-			m.addAxiom(m.tb.Eq(m.tb.Select(c, m.IxConst(int64(i))), m.IntConst(big.NewInt(v), at.Elem())))
+			if n := len(runs); n > 0 && runs[n-1].v == v {
+				runs[n-1].hi = i
+			} else {
+				runs = append(runs, run{i, i, v})
+			}
+		}
+		if len(runs) <= 48 {
+			// one quantified axiom: table[i] = decision list over the runs (exactly the initialiser)
+			tb := m.tb
+			i := tb.BoundVar("ti", m.ixSort())
+			val := m.IntConst(big.NewInt(runs[len(runs)-1].v), at.Elem())
+			for k := len(runs) - 2; k >= 0; k-- {
+				val = tb.Ite(m.IxLe(i, m.IxConst(int64(runs[k].hi))), m.IntConst(big.NewInt(runs[k].v), at.Elem()), val)
+			}
+			in := tb.And(m.IxLe(m.IxConst(0), i), m.IxLt(i, m.IxConst(int64(len(tab)))))
+			m.addAxiom(tb.Forall([]*Term{i}, tb.Implies(in, tb.Eq(tb.Select(c, i), val))))
+		} else {
+			for i, v := range tab {
+				m.addAxiom(m.tb.Eq(m.tb.Select(c, m.IxConst(int64(i))), m.IntConst(big.NewInt(v), at.Elem())))
+			}
 		}
 	}
 	if _, isIface := et.Underlying().(*types.Interface); isIface && !u.tableDone[g] {
